@@ -59,7 +59,7 @@ def build_cases(c):
     L.COMBO = True
     from tools.props import c07
     cases = c07.defect_cases()
-    n = 230 if c.tier == "quick" else 4000
+    n = 230 if c.tier == "quick" else 1500
     w = {"rate": 5, "deny": 4, "rstr": 3, "ntsn": 4, "xkiss": 3, "answer": 5, "silence": 4, "unauth": 2, "stratum": 2, "v5poll": 2}
     for i in range(n):
         case = L.random_case_header(rng)
